@@ -118,6 +118,7 @@ type machine struct {
 	poolMode     int
 	hadViolation bool
 	hangCheck    bool
+	known        map[*term]bool
 	timers       []*vtimer
 	now          *term
 	nowCount     int
@@ -251,6 +252,22 @@ func newMachine(w *world, id int) (*machine, error) {
 		return nil, err
 	}
 	m.sol = sol
+	sol.onAssert = func(t *term) {
+		if m.known == nil {
+			return
+		}
+		m.known[t] = true
+		if t.op == opNot {
+			m.known[t.a] = false
+		} else {
+			m.known[m.tb.not(t)] = false
+		}
+		// conjunctions: each conjunct holds
+		if t.op == opAnd {
+			m.known[t.a] = true
+			m.known[t.b] = true
+		}
+	}
 	m.runtimeErrType = types.NewNamed(types.NewTypeName(0, nil, "runtime.Error(engine)", nil), types.Typ[types.String], nil)
 	m.extErrType = types.NewNamed(types.NewTypeName(0, nil, "extError(engine)", nil), types.Typ[types.String], nil)
 	m.rtypeType = types.NewNamed(types.NewTypeName(0, nil, "rtype(engine)", nil), types.Typ[types.String], nil)
@@ -354,6 +371,7 @@ func (m *machine) resetPathState(prefix []int64, mdl model) {
 	m.objState = map[interface{}]interface{}{}
 	m.allocDepth = 0
 	m.inconclusive = 0
+	m.known = map[*term]bool{}
 	m.hangCheck = false
 	m.maxSteps = m.world.cfg.maxSteps
 	m.resetEnvModels()
@@ -404,6 +422,10 @@ func (m *machine) evalUnderModel(t *term) uint64 {
 func (m *machine) branch(c *term, what string) bool {
 	if c.isConst() {
 		return c.k != 0
+	}
+	// a condition already decided on this path (same hash-consed term)
+	if v, ok := m.known[c]; ok {
+		return v
 	}
 	if m.inPrefix() {
 		d := m.prefix[len(m.decs)]
